@@ -140,6 +140,10 @@ class BlockServer:
             # ETag option any more where there was one, an ETag option where there was none)
             etag = b"" if mis == "etag-vanishes" else b"v2"
             rep = bytes((x + 1) & 0xFF for x in rep)
+        if mis in ("b2-repeat-prev", "b2-restart-0") and idx2 == self.misbehave_at and want_num > 0:
+            # answers the request for block n with a well-formed earlier block (its own number, content and more-flag)
+            want_num = want_num - 1 if mis == "b2-repeat-prev" else 0
+            self.repeated_earlier = getattr(self, "repeated_earlier", 0) + 1
         offset = want_num * size
         if offset >= len(rep) and len(rep) > 0 or offset > len(rep):
             return (rc.c(4, 0), [], b"out of range")
